@@ -378,7 +378,7 @@ def family_round2():
     add("sub_with_call_operand_right", ["return a - g(b)"], helpers=G)
     add("sub_with_subscript_operand_left", ["l = [a, b]", "return l[0] - l[1]"])
     add("keyword_after_default", ["return kd(a, z=b)"], helpers="def kd(x, y=5, z=1):\n    return x * 100 + y * 10 + z\n")
-    add("while_else", ["i = 0", "s = 0", "while i < a:", "    i = i + 1", "    if i == b:", "        break", "else:", "    s = 9", "return s * 10 + i"], bounds=dict(LOOP_BOUNDS))
+    add("while_else_with_flag", ["i = 0", "s = 0", "while i < a:", "    i = i + 1", "    if i == b:", "        break", "else:", "    s = 9", "return s * 10 + i"], bounds=dict(LOOP_BOUNDS))
     add("floor_div_mod_negative", ["return (0 - a) // 3 * 10 + (0 - a) % 3"], bounds={"a": (0, 7)})
     add("negative_index", ["l = [a, b, 7]", "return l[-1] + l[-3]"])
     return P
